@@ -32,8 +32,14 @@ class ExprMixin:
                 return f(v.term)
             if isinstance(v.typ, ty.TRef) and v.typ.cls in self.prog.classes:
                 # Python truthiness of an object: __bool__, else __len__ != 0, else True
+                open_cls = v.typ.cls not in self.final_classes and v.typ.cls not in ('_MetaAgent',)
                 for meth in ('__bool__', '__len__'):
                     fi = self.prog.find_method(v.typ.cls, meth)
+                    if fi is not None and open_cls and not self.spec_mode:
+                        # the library's own answer - but a user subclass may define __bool__ (or, when the library
+                        # only has __len__, either of them): the truth value of an instance is the subclass's to decide
+                        f = z3.Function('truthy_instance', I, B)
+                        return z3.And(v.term != 0, f(v.term)) if v.nullable else f(v.term)
                     if fi is not None:
                         def call(fi=fi, meth=meth):
                             r = self.call_function(fi, [VRef(v.term, self.non_null(v.typ), v.st)], {})
